@@ -599,6 +599,9 @@ func CheckC15(c *Ctx) {
 	run.Count("bounds_proved", proved)
 	run.Floor("indicators", len(RangeClaims))
 	c.stdNonNegative()
+	// the axiom MovingMin(x) <= x <= MovingMax(x) rests on the window closures inserting every new
+	// value exactly once, removing only the value that left, and returning the tree's extreme
+	c.windowExtremes()
 }
 
 func (c *Ctx) rangeClaims(fi *load.FuncInfo, r *shape.Result, rc rangeClaim, proved *int) {
